@@ -5,7 +5,8 @@ import Aiortc.Drv.Util
 /-! Driver for the JSEP signalling model (C14): a pair of modelled peer connections is driven with a
 call trace; after every call the result class and the public state of both peers are printed.
 
-Request:  `signaling run <step>;<step>;…`   step = `<peer>:<op>[:<arg>]`
+Request:  `signaling run <step>;<step>;…`   step = `<peer>:<op>[:<arg>]`   (one pair: peers 0, 1)
+          `signaling runn <n> <step>;…`    n connections in one process (n = 4: two pairs, peers 0,1 and 2,3)
   ops: `co:<km>` createOffer (km = media sections the real createOffer produced, `-` if unknown),
        `ca` createAnswer, `sl:<desc>` setLocalDescription(desc), `si:<km>` setLocalDescription(),
        `sr:<desc>` setRemoteDescription(desc), `cl` close
@@ -17,7 +18,7 @@ Request:  `signaling run <step>;<step>;…`   step = `<peer>:<op>[:<arg>]`
          with the section's OWN lines; ufrag/pwd: `-` no line, `0` empty value, `1` present; setup: `-` no line,
          `a` actpass, `d` active/passive; mux `0`/`1`.  The model resolves session level vs media level itself.
   km   = `-` or `+`-joined `<kind>.<mid>`
-Reply:    `;`-joined `<res>|<obs peer0>|<obs peer1>`, obs = `<state>,<local>,<remote>,<events>`. -/
+Reply:    `;`-joined `<res>|<obs peer0>|<obs peer1>[|<obs peer2>|…]`, obs = `<state>,<local>,<remote>,<events>`. -/
 namespace Aiortc.Drv.Signaling
 open Aiortc.Model.Jsep Aiortc.Drv
 
@@ -144,23 +145,36 @@ def stepPeer (pc : Pc) (s : String) : Option (String × Pc) :=
   else
     (parseCall? (s.splitOn ":")).map fun c => let r := step pc c; (showRes r.1, r.2)
 
-def runPair : Pc → Pc → List String → List String → Option (List String)
-  | _, _, [], acc => some acc.reverse
-  | p0, p1, s :: rest, acc =>
-    if s.startsWith "0:" then
-      match stepPeer p0 (s.drop 2).toString with
-      | some (res, p0') => runPair p0' p1 rest ((res ++ "|" ++ showObs p0' ++ "|" ++ showObs p1) :: acc)
-      | none => none
-    else if s.startsWith "1:" then
-      match stepPeer p1 (s.drop 2).toString with
-      | some (res, p1') => runPair p0 p1' rest ((res ++ "|" ++ showObs p0 ++ "|" ++ showObs p1') :: acc)
-      | none => none
-    else none
+/-- Any number of connections living in one process (`run`: one pair; `runn 4`: two pairs).  A step names its peer by one
+digit; a call is applied to that connection alone (`Model/Jsep/System.lean: stepAt`), all connections are printed. -/
+def runPeers : List Pc → List String → List String → Option (List String)
+  | _, [], acc => some acc.reverse
+  | pcs, s :: rest, acc =>
+    match s.toList with
+    | d :: ':' :: _ =>
+      if d.isDigit then
+        let i := d.toNat - '0'.toNat
+        match pcs[i]? with
+        | some pc =>
+          match stepPeer pc (s.drop 2).toString with
+          | some (res, pc') =>
+            let pcs' := pcs.set i pc'
+            runPeers pcs' rest ((res ++ String.join (pcs'.map fun q => "|" ++ showObs q)) :: acc)
+          | none => none
+        | none => none
+      else none
+    | _ => none
+
+def runFrom (n : Nat) (steps : String) : String :=
+  match runPeers (List.replicate n Pc.init) (if steps = "-" then [] else steps.splitOn ";") [] with
+  | some out => if out.isEmpty then "-" else ";".intercalate out
+  | none => "bad-op"
 
 def handleTop : List String → String
-  | ["run", steps] =>
-    match runPair Pc.init Pc.init (if steps = "-" then [] else steps.splitOn ";") [] with
-    | some out => if out.isEmpty then "-" else ";".intercalate out
+  | ["run", steps] => runFrom 2 steps
+  | ["runn", n, steps] =>
+    match parseNat? n with
+    | some k => if 2 ≤ k ∧ k ≤ 10 then runFrom k steps else "bad-op"
     | none => "bad-op"
   | _ => "bad-op"
 
